@@ -216,7 +216,7 @@ cls("c18_Glyph", fields={"name": STR, "anchors": List(Ref("c18_Anchor"))}, notes
 
 
 @specfn(GLYPHSET, opaque=True, self=Ref("c17_Writer"))
-def ordered_glyphs(self):
+def c18_ordered_glyphs(self):
     """what self.getOrderedGlyphSet() returns (the exported glyphs in glyph order) — opaque in the logic"""
     return M.raw(self).getOrderedGlyphSet()
 
@@ -229,13 +229,13 @@ def ligature_carets(self):
 
 
 @specfn(List(STR), opaque=True, self=Ref("c17_Writer"), names=Set(STR))
-def sorted_class(self, names):
+def c18_sorted_class(self, names):
     """sorted(exported glyph names that are in `names`) — opaque in the logic; natively written independently of _sortedGlyphClass"""
     return sorted(set(M.raw(self).context.orderedGlyphSet.keys()) & set(names))
 
 
 def _get_ogs(ex, st, self, args, kwargs, node):
-    return ex.apply_spec(SPECFNS["ordered_glyphs"], [self], st, node)
+    return ex.apply_spec(SPECFNS["c18_ordered_glyphs"], [self], st, node)
 
 
 def _get_carets(ex, st, self, args, kwargs, node):
@@ -243,7 +243,7 @@ def _get_carets(ex, st, self, args, kwargs, node):
 
 
 def _sorted_class(ex, st, self, args, kwargs, node):
-    return ex.apply_spec(SPECFNS["sorted_class"], [self, args[0]], st, node)
+    return ex.apply_spec(SPECFNS["c18_sorted_class"], [self, args[0]], st, node)
 
 
 def _get_otc(ex, st, self, args, kwargs, node):
@@ -370,15 +370,15 @@ contract(
         "returns-true": "result",
         # feaLib's GlyphClassDefStatement(baseGlyphs, markGlyphs, ligatureGlyphs, componentGlyphs): each argument is the sorted class of ITS category
         "argument-order": f"{_LAST}.kind == 'GlyphClassDefStatement'"
-        f" and {_LAST}.baseGlyphs.glyphs == sorted_class(self, {_C}.base) and {_LAST}.markGlyphs.glyphs == sorted_class(self, {_C}.mark)"
-        f" and {_LAST}.ligatureGlyphs.glyphs == sorted_class(self, {_C}.ligature) and {_LAST}.componentGlyphs.glyphs == sorted_class(self, {_C}.component)",
+        f" and {_LAST}.baseGlyphs.glyphs == c18_sorted_class(self, {_C}.base) and {_LAST}.markGlyphs.glyphs == c18_sorted_class(self, {_C}.mark)"
+        f" and {_LAST}.ligatureGlyphs.glyphs == c18_sorted_class(self, {_C}.ligature) and {_LAST}.componentGlyphs.glyphs == c18_sorted_class(self, {_C}.component)",
         # additive: a user-written GDEF block keeps its statements, in order, in front of the generated one
         "user-gdef-kept": "implies(self.context.gdefTableBlock, self.context.gdefTableBlock.stmt_ids[:len(self.context.gdefTableBlock.stmt_ids) - 1] == old(self.context.gdefTableBlock.stmt_ids)"
         " and self.context.feaFile.stmt_ids == old(self.context.feaFile.stmt_ids))",
         "new-gdef-appended": "implies(not self.context.gdefTableBlock, self.context.feaFile.stmt_ids[:len(self.context.feaFile.stmt_ids) - 1] == old(self.context.feaFile.stmt_ids)"
         f" and {_BLK}.kind == 'TableBlock' and {_BLK}.name == 'GDEF' and len({_BLK}.statements) == 1)",
     },
-    canaries={"mark-is-second-wrong": f"{_LAST}.markGlyphs.glyphs == sorted_class(self, {_C}.ligature)"},
+    canaries={"mark-is-second-wrong": f"{_LAST}.markGlyphs.glyphs == c18_sorted_class(self, {_C}.ligature)"},
 )
 
 # =====================================================================================================================
